@@ -9,7 +9,7 @@ ABC = [(0x61, 0x63)]
 LABEL = [(0x61, 0x7A), (0x30, 0x39)]
 BOUNDS = {
     "quick": "(b) every rule set of <= 2 rules (3 rules when short) of the shapes L, L.L, L.L.L, *.L, *.L.L, !L.L, !L.L.L (L = a symbolic label in {a,b,c}) x every hostname of depth 1..4 over {a,b,c}; "
-             "(a) bundled list: 40 rule families (plain 1-3 labels, wildcard with and without explicit children, exception rules, private suffixes) with 1-2 symbolic labels [a-z0-9]{1,2} placed in front of / inside the rule; "
+             "(a) bundled list: 45 rule families (plain 1-3 labels, wildcard with and without explicit children, exception rules, private suffixes, hosts that start like 'localhost' / an IPv4 address) with 1-2 symbolic labels [a-z0-9]{1,2} placed in front of / inside the rule; "
              "(c) surface claims on 8 host skeletons with holes of length 0..2",
     "thorough": "rule sets of <= 4 rules; symbolic labels of up to 3 characters",
 }
@@ -44,6 +44,8 @@ BUNDLED = [
     "{}.firenet.ch", "svc.firenet.ch", "{}.svc.firenet.ch", "a.{}.svc.firenet.ch", "firenet.ch", "{}.futurecms.at", "in.futurecms.at", "{}.in.futurecms.at",
     "{}.customer-oci.com", "oci.customer-oci.com", "{}.oci.customer-oci.com", "{}.snowflake.app", "privatelink.snowflake.app", "{}.privatelink.snowflake.app",
     "{}.k12.ak.us", "{}.pvt.k12.ma.us", "{}.compute.amazonaws.com", "{}.jp", "{}.nom.br", "{}.zzunknowntld",
+    # hostnames that merely start like a special host (localhost, an IPv4 address) are ordinary hostnames
+    "localhost{}.com", "localhost.{}.fr", "localhost.daplie.me", "1.2.3.4.{}.com", "10.0.0.1{}.fr",
 ]
 
 
